@@ -603,7 +603,9 @@ def _type_clauses(ctx: Ctx, vf: FuncInfo, xname: str) -> None:
                 other_n = t.left if ast.unparse(
                     t.comparators[0]) == f"{xname}.shape" \
                     else t.comparators[0]
-                shape_src = ast.unparse(inline_locals(vf.node, other_n))
+                from sa.srcmodel import fold_consts
+                shape_src = ast.unparse(fold_consts(
+                    ctx.repo, vf.module, inline_locals(vf.node, other_n)))
                 if shape_src.replace(" ", "").endswith(".n_items,6)"):
                     want["x.shape == (n_items, 6)"] = True
         del src
